@@ -346,9 +346,10 @@ def main(argv):
     violations.append((entry["name"], path, tail))
 
   # ---- bounded exhaustive stand-ins: only when a unit they stand in for is undecided
-  for en in spec.get("enum_fallback", []):
+  # (enum_thorough: complete enumerations of a finite decision table, run in the thorough tier whatever the units say)
+  for en in list(spec.get("enum_fallback", [])) + (list(spec.get("enum_thorough", [])) if tier == "thorough" else []):
     es = ENUM_TESTS[en]
-    if not any(u.get("unit") == es["unit"] for u in undecided):
+    if en not in spec.get("enum_thorough", []) and not any(u.get("unit") == es["unit"] for u in undecided):
       continue
     rr = run_enum(en)
     entry = {"name": "enum.%s" % en, "bound": es["bound"], "text": es["what"], "ms": None,
@@ -356,7 +357,7 @@ def main(argv):
     bounded.append(entry)
     cmds.append(rr["cmd"])
     if rr["failed"]:
-      payload = {"property": pid, "obligation": entry["name"], "function": ",".join(es["pairs_fn"]), "backend": "cargo test (bounded exhaustive stand-in; unit %s undecided)" % es["unit"],
+      payload = {"property": pid, "obligation": entry["name"], "function": ",".join(es["pairs_fn"]), "backend": "cargo test (bounded exhaustive stand-in for unit %s)" % es["unit"],
                  "bound": es["bound"], "replay_cmd": rr["cmd"], "replay_output": rr["output"][-3500:], "replay_failed_on_real_code": True,
                  "verifier_output": "unit %s could not decide: %s" % (es["unit"], "; ".join((u.get("msg") or "")[:300] for u in undecided if u.get("unit") == es["unit"])),
                  "note": "the failing input is named in the assertion message of the test (replay_output)"}
